@@ -296,7 +296,30 @@ func runC16(c *Checker) {
 				"written by WriteMessage/Flush only", "the pending "+f.Name()+" is written outside WriteMessage/Flush")
 		}
 	}
-	// WriteMessage: Encrypt calls dominated by nothing-pending and by the length bound
+	nEnc := ruleWriteMessageGuard(c, "FLUSH", wm, hdr, body)
+	if nEnc != 2 {
+		c.fail("FLUSH", "WriteMessage|two-encryptions", wm.Pos(), fmt.Sprintf("expected exactly 2 Encrypt calls (header, body), found %d", nEnc))
+	} else {
+		c.ok("FLUSH", "WriteMessage|two-encryptions", wm.Pos(), "header and body encryption")
+	}
+	rg := newRanger(w)
+	allInstrs(wm, func(in ssa.Instruction) {
+		cv, ok := in.(*ssa.Convert)
+		if !ok || !isInteger(cv.Type()) || !derivesFromLen(cv.X, 0) {
+			return
+		}
+		r := rg.At(cv.X, cv.Block())
+		c.decide(r.within(fullRange(cv.Type())), "FLUSH", "WriteMessage|length-bound", instrPos(cv),
+			fmt.Sprintf("len(p) range %s fits the %s length header", r, typeStr(cv.Type())),
+			fmt.Sprintf("len(p) (range %s) is cut to %s: a write larger than one record is silently truncated", r, typeStr(cv.Type())))
+	})
+	c.floor("FLUSH", 10)
+}
+
+// ruleWriteMessageGuard: in WriteMessage every Encrypt is dominated by the "nothing pending"
+// test on both pending slices (shared by C16 FLUSH and C15 RDC-3). Returns the number of
+// Encrypt calls.
+func ruleWriteMessageGuard(c *Checker, rule string, wm *ssa.Function, hdr, body *types.Var) int {
 	wrecv := ssa.Value(wm.Params[0])
 	nEnc := 0
 	allInstrs(wm, func(in ssa.Instruction) {
@@ -330,25 +353,9 @@ func runC16(c *Checker) {
 			}
 		}
 		key := fmt.Sprintf("WriteMessage|encrypt-%d-guarded", nEnc)
-		c.decide(pendingFree[hdr] && pendingFree[body], "FLUSH", key, instrPos(call),
+		c.decide(pendingFree[hdr] && pendingFree[body], rule, key, instrPos(call),
 			"dominated by len(nextHeaderSend)==0 and len(nextBodySend)==0",
 			"Encrypt can run while a record is still pending: the nonce advances and the pending record is overwritten (ErrMessageNotFlushed guard missing)")
 	})
-	if nEnc != 2 {
-		c.fail("FLUSH", "WriteMessage|two-encryptions", wm.Pos(), fmt.Sprintf("expected exactly 2 Encrypt calls (header, body), found %d", nEnc))
-	} else {
-		c.ok("FLUSH", "WriteMessage|two-encryptions", wm.Pos(), "header and body encryption")
-	}
-	rg := newRanger(w)
-	allInstrs(wm, func(in ssa.Instruction) {
-		cv, ok := in.(*ssa.Convert)
-		if !ok || !isInteger(cv.Type()) || !derivesFromLen(cv.X, 0) {
-			return
-		}
-		r := rg.At(cv.X, cv.Block())
-		c.decide(r.within(fullRange(cv.Type())), "FLUSH", "WriteMessage|length-bound", instrPos(cv),
-			fmt.Sprintf("len(p) range %s fits the %s length header", r, typeStr(cv.Type())),
-			fmt.Sprintf("len(p) (range %s) is cut to %s: a write larger than one record is silently truncated", r, typeStr(cv.Type())))
-	})
-	c.floor("FLUSH", 10)
+	return nEnc
 }
